@@ -1,6 +1,6 @@
 (* C03 - Exporters are driven one call at a time and within the configured batch bounds (batch processors).
    Property theorems only; proofs are in Batch/Proofs*.v and Batch/Theorems.v. *)
-From V Require Import Batch.Model Batch.Glue Batch.Spec Batch.ProofsA Batch.ProofsB Batch.Theorems Batch.TraceSpec Batch.Simple Batch.SimpleProofs Batch.Periodic Batch.PeriodicProofs.
+From V Require Import Batch.Model Batch.Glue Batch.Spec Batch.ProofsA Batch.ProofsB Batch.Theorems Batch.TraceSpec Batch.Simple Batch.SimpleProofs Batch.SimpleTrace Batch.Periodic Batch.PeriodicProofs Batch.PeriodicTrace.
 From Coq Require Import List Arith.
 Import ListNotations.
 
@@ -43,11 +43,21 @@ Theorem c03_simple_nonvacuous :
 Proof. exact simple_demo. Qed.
 Print Assumptions c03_simple_nonvacuous.
 
+(* every trace the simple-processor acceptor accepts passes the C03 history checker run on the implementation's traces *)
+Theorem c03_simple_accepted_trace_meets_spec : forall tr s, srun sinit tr = Some s -> simple_walk false 0 (spevs tr) = [].
+Proof. exact accepted_trace_meets_simple_spec. Qed.
+Print Assumptions c03_simple_accepted_trace_meets_spec.
+
 (* periodic exporting metric reader racing ForceFlush and Shutdown (Batch/Periodic.v) *)
 Theorem c03_periodic_export_never_overlaps : forall s t n s', rreachable s ->
   raccept s (t, RExpBegin n) = Some s' -> r_fly s = None.
 Proof. exact periodic_export_never_overlaps. Qed.
 Print Assumptions c03_periodic_export_never_overlaps.
+
+(* every trace the periodic-reader acceptor accepts passes the C03 history checker (periodic_spec3's walker) *)
+Theorem c03_periodic_accepted_trace_meets_spec : forall tr s, rrun rinit tr = Some s -> periodic_walk3 false (rpevs tr) = [].
+Proof. exact accepted_trace_meets_periodic_spec3. Qed.
+Print Assumptions c03_periodic_accepted_trace_meets_spec.
 
 Theorem c03_nonvacuous : exists s, run (init 1 1) demo_trace = Some s /\ In (2, 1, true) (fl_done s) /\ sh_done s <> [] /\
   dropped s = [12] /\ exported s = [[11]].
